@@ -79,8 +79,25 @@ Definition Good (r:rt) (c:context) : Prop :=
   cur r = Some c /\ r_exit_req r = false /\ r_state r = StRunning /\ r_err r = false /\ r_msgs r = [] /\
   r_max_runtime r = 0%Z /\ c_suspended c = false.
 
-(* one or more passes of execute_do's loop that neither return nor fail *)
+(* the configuration of the machine - loop cap, time limit, slice length, tick, defect switches - is not touched *)
+Definition cfg_same (r r1:rt) : Prop :=
+  r_max_loop r1 = r_max_loop r /\ r_max_runtime r1 = r_max_runtime r /\ r_slice r1 = r_slice r /\
+  r_tick r1 = r_tick r /\ r_defects r1 = r_defects r.
+
+(* one or more passes of execute_do's loop that neither return nor fail (and leave the configuration alone) *)
 Inductive Steps : rt -> rt -> Prop :=
 | StepsRefl r : Steps r r
-| StepsExec r r1 r2 : do_iter r = Ok (Executed r1) -> Steps r1 r2 -> Steps r r2
-| StepsCont r r1 r2 : do_iter r = Ok (Continue r1) -> Steps r1 r2 -> Steps r r2.
+| StepsExec r r1 r2 : do_iter r = Ok (Executed r1) -> cfg_same r r1 -> Steps r1 r2 -> Steps r r2
+| StepsCont r r1 r2 : do_iter r = Ok (Continue r1) -> cfg_same r r1 -> Steps r1 r2 -> Steps r r2.
+
+Lemma cfg_refl r : cfg_same r r. Proof. unfold cfg_same. auto. Qed.
+Lemma cfg_trans a b c : cfg_same a b -> cfg_same b c -> cfg_same a c.
+Proof. unfold cfg_same. intros (A1 & A2 & A3 & A4 & A5) (B1 & B2 & B3 & B4 & B5). repeat split; congruence. Qed.
+Lemma cfg_upd_cur r c : cfg_same r (upd_cur r c).
+Proof. unfold cfg_same, upd_cur. destruct (r_active r); cbn; auto. Qed.
+Lemma steps_cfg r r' : Steps r r' -> cfg_same r r'.
+Proof. induction 1; [apply cfg_refl|eapply cfg_trans; eassumption|eapply cfg_trans; eassumption]. Qed.
+Lemma steps_exec_upd r c : do_iter r = Ok (Executed (upd_cur r c)) -> Steps r (upd_cur r c).
+Proof. intros H. eapply StepsExec; [exact H|apply cfg_upd_cur|apply StepsRefl]. Qed.
+Lemma steps_cont_upd r c : do_iter r = Ok (Continue (upd_cur r c)) -> Steps r (upd_cur r c).
+Proof. intros H. eapply StepsCont; [exact H|apply cfg_upd_cur|apply StepsRefl]. Qed.
